@@ -64,6 +64,12 @@ LAYERS = {
         {"name": "B", "request": rq(C("sid", 0x31), C("sub", 0x01), C("id", 0xFF), V("y", 16))},
         {"name": "D", "request": rq(C("sid", 0x31))},
     ]},
+    "nested-responses": {"services": [
+        {"name": "A", "request": rq(C("sid", 0x22), V("did")),
+         "pos": [rq(C("sid", 0x62), V("did"), V("data"))]},
+        {"name": "B", "request": rq(C("sid", 0x22), C("hi", 0xF1), C("lo", 0x90)),
+         "pos": [rq(C("sid", 0x62), C("hi", 0xF1), C("lo", 0x90), V("vin"))]},
+    ]},
     "equal-prefix": {"services": [
         {"name": "A", "request": rq(C("sid", 0x27), V("x"))},
         {"name": "B", "request": rq(C("sid", 0x27), V("p"), V("q"))},
@@ -425,11 +431,30 @@ def run_response_any(sx, cfg, env):
               len(prefix_of(s2["request"]["params"])) > len(const_part) and
               on_path(const_part, prefix_of(s2["request"]["params"]))]
     if longer:
-        sx.cover("skipped-ambiguous-request")
-        return
+        if not cfg.get("warm"):
+            sx.cover("skipped-ambiguous-request")
+            return
+        # requests whose value bytes do not continue the constant prefix of a longer request
+        for s2 in longer:
+            p2 = prefix_of(s2["request"]["params"])
+            if len(req) > len(const_part):
+                sx.assume(req[len(const_part)] != p2[len(const_part)])
     want = reference(spec, M, only=cands)
     if len({k[0] for k in want}) != len(want):
         return
+    if cfg.get("warm"):
+        # earlier look-ups on the same layer (the own request of every service) must not change
+        # what a later one finds
+        for s2 in spec["services"]:
+            if s2.get("request"):
+                try:
+                    with warnings.catch_warnings():
+                        warnings.simplefilter("ignore")
+                        w = layer.services[s2["name"]].encode_request(
+                            **{p["name"]: 0 for p in s2["request"]["params"] if p["kind"] == "value"})
+                        layer.decode(bytes(w))
+                except Exception:  # noqa: BLE001
+                    pass
     try:
         with warnings.catch_warnings():
             warnings.simplefilter("ignore")
@@ -498,6 +523,11 @@ def configs(tier, seed):
                     for hi in (range(16) if tier != "quick" else (1, 2)):
                         out.append(dict(base, id=f"{stem}/b7f/{hi:x}x", first=0x7F, second_hi=hi))
                     out.append(dict(base, id=f"{stem}/other", not_first=[0x7F]))
+    for n in (3, 4):
+        for i in (0, 1):
+            out.append({"harness": "response-any", "layer": "nested-responses", "service": i, "mlen": n,
+                        "warm": True, "first": 0x62, "build": {"layer": "nested-responses"},
+                        "id": f"response-any/nested-responses/{'AB'[i]}/len{n}/warm"})
     return out
 
 
